@@ -976,6 +976,11 @@ func TestCoordinator(t *testing.T) {
 			}
 			continue
 		}
+		if len(reported) >= 5 {
+			// enough confirmed violations to fail the check: further keys of the same run are listed, not re-run
+			fmt.Printf("ALSO-SEEN (not re-run, %d violations are already confirmed): property=%s key=%s case=%s\n", len(reported), id, key, oneLine(fv.CaseID, 160))
+			continue
+		}
 		// confirm: the same case must fail with the same key every time
 		confirmed := true
 		if os.Getenv("VERIF_NOCONFIRM") == "" && !strings.HasPrefix(key, "harness:") {
